@@ -75,8 +75,8 @@ def step (st : St) (j : Json) : St × Json :=
     | some stmts =>
       let cmp := (str? j "cmp").getD "rows"
       if cmp == "skip" then (st, Json.mkObj [("skip", .bool true)]) else
-      let kv := ("kv", Json.bool true)
-      let render (r : Except TypeErr (List Row)) (ty : Option TState) : Json :=
+      let render (kvb : Bool) (r : Except TypeErr (List Row)) (ty : Option TState) : Json :=
+        let kv := ("kv", Json.bool kvb)
         match r, ty with
         | .ok rows, some ts =>
           let t := ("t", Json.str ts.last.toString)
@@ -88,10 +88,21 @@ def step (st : St) (j : Json) : St × Json :=
       let ty : Option TState := match typeCheck stmts with
         | .ok ts => some ts
         | .error _ => none
-      let model := render (runT Drv.numOf st.tables st.mapping stmts) ty
-      let spec := render (run Drv.numOf (materialise st.tables st.mapping) stmts) ty
+      let g := materialise st.tables st.mapping
+      let mr := runT Drv.numOf st.tables st.mapping stmts
+      let sr := run Drv.numOf g stmts
+      let model := render true mr ty
+      let spec := render true sr ty
       if Json.compress model == Json.compress spec then (st, model)
-      else (st, model.setObjVal! "spec" spec)
+      else
+        -- the embedded store holds the SPEC graph (when it can: unique gids), so the harness's
+        -- in-process comparison with it must come out as the MODEL-vs-SPEC comparison does
+        let uniq (xs : List String) : Bool := xs.eraseDups.length == xs.length
+        let kvOK := uniq (g.verts.map (·.gid)) && uniq (g.edges.map (·.gid))
+        let model' := render (!kvOK) mr ty
+        if dashLookup stmts then
+          (st, (model'.setObjVal! "spec" spec).setObjVal! "kf" (Json.str "C15-edge-id-dash"))
+        else (st, model'.setObjVal! "spec" spec)
   | some "write" =>
     if !st.ok then (st, Json.mkObj [("skip", .bool true)]) else
     let (refused, s') := tgWrite (st.tables, st.mapping) .addVertex
